@@ -113,6 +113,21 @@ type SItem struct {
 	N int `dials:"n"`
 }
 
+// a flag given twice, each occurrence with a part of the value: the parts accumulate
+func repeatParts(kind string, id int) (string, string, reflect.Value) {
+	switch kind {
+	case "strs":
+		return fmt.Sprintf(`"a%d"`, id), fmt.Sprintf(`"b,%d","c"`, id), reflect.ValueOf([]string{fmt.Sprintf("a%d", id), fmt.Sprintf("b,%d", id), "c"})
+	case "ints":
+		return fmt.Sprint(id), fmt.Sprintf("-%d,7", id), reflect.ValueOf([]int{id, -id, 7})
+	case "smap":
+		return fmt.Sprintf(`"k%d":"v:w"`, id), `"z":"y"`, reflect.ValueOf(map[string]string{fmt.Sprintf("k%d", id): "v:w", "z": "y"})
+	case "set":
+		return fmt.Sprintf(`"m%d"`, id), `"z"`, reflect.ValueOf(map[string]struct{}{fmt.Sprintf("m%d", id): {}, "z": {}})
+	}
+	panic("harness: kind " + kind + " is not repeatable")
+}
+
 // a literal outside the range of the narrow leaf kinds
 func overValue(kind string) (string, interface{}) {
 	switch kind {
@@ -463,6 +478,12 @@ func (r *srcRun) judge(src, prop string, res reflect.Value, err error, garbage b
 			}
 			continue
 		}
+		if l.Pat == "repeat" && src != "flag" && src != "pflag" {
+			if set {
+				r.add(p, src, "leaf %d (%s) was not supplied but is set to %v", l.ID, l.Kind, fv.Interface())
+			}
+			continue
+		}
 		if l.Set && !set {
 			r.add(p, src, "leaf %d (%s, supplied as %s) was left unset", l.ID, l.Kind, l.Pat)
 			r.add("C10", src, "leaf %d (%s) was supplied but is unset after reverse translation", l.ID, l.Kind)
@@ -475,6 +496,9 @@ func (r *srcRun) judge(src, prop string, res reflect.Value, err error, garbage b
 		}
 		if l.Set {
 			want, _, _ := leafValue(l.Kind, l.ID)
+			if l.Pat == "repeat" {
+				_, _, want = repeatParts(l.Kind, l.ID)
+			}
 			got := fv
 			for got.Kind() == reflect.Ptr {
 				got = got.Elem()
@@ -638,9 +662,20 @@ func (r *srcRun) runFlags(which string) {
 		if l.Pat == "empty" && l.Kind == "set" && r.c.Garbage == "" {
 			args = append(args, "--"+prim+"=")
 		}
+		if l.Pat == "repeat" {
+			t1, t2, _ := repeatParts(l.Kind, l.ID)
+			if r.c.Garbage != "" {
+				t1, t2 = r.c.Garbage, r.c.Garbage
+			}
+			args = append(args, "--"+prim+"="+t1, "--"+prim+"="+t2)
+		}
 	}
 	// any order
-	if r.c.Seed%2 == 1 {
+	hasRepeat := false
+	for _, l := range r.c.Expect.Leaves {
+		hasRepeat = hasRepeat || l.Pat == "repeat"
+	}
+	if r.c.Seed%2 == 1 && !hasRepeat { // (the order of two occurrences of one flag is the order of their parts)
 		sort.Sort(sort.Reverse(sort.StringSlice(args)))
 	}
 	tmplV := reflect.New(r.typ)
@@ -659,6 +694,9 @@ func (r *srcRun) runFlags(which string) {
 				r.add("C12", which, "constructing the flag set failed: %v", err)
 			}
 			return
+		}
+		if r.c.Garbage == "" {
+			r.checkAdvertised(which, src)
 		}
 		res, verr := src.Value(context.Background(), dials.NewType(r.ptyp))
 		before := len(r.mis)
@@ -688,6 +726,80 @@ func (r *srcRun) runFlags(which string) {
 			r.mis[before].Detail += fmt.Sprintf(" | args %v | registered %v", args, names)
 		}
 	})
+}
+
+// checkAdvertised: each leaf's flag advertises the template's value for that leaf as its default
+func (r *srcRun) checkAdvertised(which string, src flagger) {
+	lookup := func(name string) (string, bool) {
+		switch s := src.(type) {
+		case *dflag.Set:
+			if f := s.Flags.Lookup(name); f != nil {
+				return f.DefValue, true
+			}
+		case *dpflag.Set:
+			if f := s.Flags.Lookup(name); f != nil {
+				return f.DefValue, true
+			}
+		}
+		return "", false
+	}
+	for _, l := range r.c.Expect.Leaves {
+		if !flagSupports(l.Kind) {
+			continue
+		}
+		f := findField(r.c.Fields, l.ID)
+		viaStructAlias := false
+		for _, pf := range pathTo(r.c.Fields, l.ID) {
+			viaStructAlias = viaStructAlias || pf.PAlias
+		}
+		if viaStructAlias {
+			continue // the model names this leaf by its struct's alias; the statement is about the flag under the primary name
+		}
+		name := flagName(l.Flag)
+		if f.SrcTag {
+			name = fmt.Sprintf("flagx-%d", l.ID)
+			if which == "pflag" {
+				name = fmt.Sprintf("pflagx-%d", l.ID)
+			}
+		}
+		def, ok := lookup(name)
+		if !ok {
+			r.add("C12", which, "no flag --%s is registered for leaf %d (%s)", name, l.ID, l.Kind)
+			continue
+		}
+		dv, _, _ := leafValue(l.Kind, l.ID+500) // what fillDefaults put into the template
+		var elems []string
+		switch l.Kind {
+		case "time":
+			elems = []string{dv.Interface().(time.Time).Format(time.RFC3339)}
+		case "strs", "nstrs", "pstrs":
+			for i := 0; i < dv.Len(); i++ {
+				elems = append(elems, dv.Index(i).String())
+			}
+		case "ints":
+			for i := 0; i < dv.Len(); i++ {
+				elems = append(elems, fmt.Sprint(dv.Index(i).Interface()))
+			}
+		case "smap", "pmap", "set":
+			for _, k := range dv.MapKeys() {
+				elems = append(elems, k.String())
+				if dv.Type().Elem().Kind() == reflect.String {
+					elems = append(elems, dv.MapIndex(k).String())
+				}
+			}
+		default:
+			if want := fmt.Sprint(dv.Interface()); def != want {
+				r.add("C12", which, "flag --%s advertises the default %q, the template's value for leaf %d (%s) is %q", name, def, l.ID, l.Kind, want)
+			}
+			continue
+		}
+		for _, e := range elems {
+			if !strings.Contains(def, e) {
+				r.add("C12", which, "flag --%s advertises the default %q, which does not show %q of the template's value for leaf %d (%s)", name, def, e, l.ID, l.Kind)
+				break
+			}
+		}
+	}
 }
 
 // fillDefaults gives every leaf of the flag template a non-zero default that differs from any supplied value
